@@ -43,13 +43,14 @@ ASSUMPTIONS = [
     "unchanged and the statement does not say whether NaT is 'missing'); otherwise only eager == chunked is required",
     "sampled, not exhaustive; task bodies atomic",
 ]
-PROBES = ["dtype_kwarg", "narrow_or_unsigned_int", "blocks>=4", "blocks>=8", "group_skips_block", "nan_run_crosses_boundary", "block_all_nan_for_group",
+PROBES = ["running_sum_leaves_input_width", "dtype_kwarg", "narrow_or_unsigned_int", "blocks>=4", "blocks>=8", "group_skips_block", "nan_run_crosses_boundary", "block_all_nan_for_group",
           "all_size1_chunks", "missing_labels", "by_dask", "crash_recomputed_released_key"]
 
 
 def gen(tape: Tape, tier: str) -> dict:
-    case = gen_scan_case(tape, dtypes=("f8", "f8", "f4", "f4", "i8", "i4", "i2", "u1", "u4", "b1", "M8[ns]"),
-                         max_n=48 if tier == "thorough" else 30, max_groups=7 if tier == "thorough" else 5, dtype_kw_p=0.25)
+    case = gen_scan_case(tape, dtypes=("f8", "f8", "f4", "f4", "i8", "i4", "i2", "i1", "u1", "u4", "u8", "b1", "M8[ns]"),
+                         max_n=48 if tier == "thorough" else 30, max_groups=7 if tier == "thorough" else 5, dtype_kw_p=0.25,
+                         big_int_p=0.4)
     return case
 
 
@@ -92,6 +93,8 @@ def run(case, tape: Tape, ctx):
     if res.dtype != ref.dtype:
         raise Violation("dtype", f"{func}: chunked result is {res.dtype}, eager result is {ref.dtype} (input {arr.dtype}, dtype={kw.get('dtype')!r})")
     ctx.probe("dtype_kwarg", "dtype" in kw)
+    ctx.probe("running_sum_leaves_input_width", arr.dtype.kind in "iu" and func == "nancumsum" and arr.size > 0 and
+              (int(np.abs(arr.astype(object)).max()) * 2 >= 2 ** (8 * arr.dtype.itemsize - 1) or int(np.abs(arr.astype(object)).max()) > 2 ** 53))
     ctx.probe("narrow_or_unsigned_int", arr.dtype.kind in "iu" and (arr.dtype.itemsize < 8 or arr.dtype.kind == "u"))
     if res.shape != arr.shape:
         raise Violation("meta", f"scan result shape {res.shape} != input shape {arr.shape}")
